@@ -350,6 +350,7 @@ class Body:
                 self.name_places.setdefault(d['name'], []).append(pl)
                 if not pl.proj:
                     self.local_names.setdefault(pl.local, d['name'])
+        self.inlined = []          # names of helper functions spliced into this body (inline_helpers)
         self._preds = None
         self._dom = None
         self._pdom = None
@@ -635,3 +636,149 @@ class Facts:
 
 def _norm_q(n):
     return re.sub(r"<'[a-z_]+>", '', n)
+
+
+# ---------------------------------------------------------------------------------- helper inlining
+def _shift(x, dl, db, top=True):
+    """deep copy of a MIR JSON node with every local shifted by dl (block refs are handled by the caller)"""
+    if isinstance(x, dict):
+        out = {}
+        for k, v in x.items():
+            if k == 'local' and isinstance(v, int):
+                out[k] = v + dl
+            else:
+                out[k] = _shift(v, dl, db, False)
+        return out
+    if isinstance(x, list):
+        return [_shift(v, dl, db, False) for v in x]
+    return x
+
+
+def _shift_term(t, dl, db):
+    t = _shift(t, dl, db)
+    if t.get('target') is not None:
+        t['target'] += db
+    if 'targets' in t:
+        t['targets'] = [[v, b + db] for v, b in t['targets']]
+    if 'otherwise' in t and t['otherwise'] is not None:
+        t['otherwise'] += db
+    return t
+
+
+def inline_helpers(facts, body, want, depth=3):
+    """`body` with every call to a crate-local function for which want(callee_body) holds spliced in (MIR inlining on
+    the fact level; recursion bounded by `depth`).  Lets a rule written for a function keep seeing the anchors when they
+    are moved into a private helper.  Returns `body` itself when nothing is inlined."""
+    cur = body
+    for _ in range(depth):
+        j = cur.j
+        todo = []
+        for bb, t in cur.calls():
+            n = t.callee.name
+            if not n or t.callee.is_indirect():
+                continue
+            try:
+                cb = facts.fn(n)
+            except AnchorLost:
+                continue
+            if cb.kind == 'Closure' or cb.path == body.path or t.target is None:
+                continue
+            if want(cb):
+                todo.append((bb, t, cb))
+        if not todo:
+            return cur
+        nj = dict(j)
+        nj['locals'] = list(j['locals'])
+        nj['debug'] = list(j['debug'])
+        nj['blocks'] = [dict(b) for b in j['blocks']]
+        ncaller = len(nj['blocks'])
+        spliced = {}
+        for bb, t, cb in todo:
+            dl = len(nj['locals'])
+            db = len(nj['blocks'])
+            nj['locals'].extend(cb.j['locals'])
+            have = {d['name'] for d in nj['debug']}
+            for d in cb.j['debug']:
+                if 'local' in d['value']:
+                    d2 = _shift(d, dl, db)
+                    d2.pop('arg', None)
+                    if d2['name'] in have:
+                        d2['name'] = '%s@%s' % (d2['name'], cb.name.split('::')[-1])
+                    nj['debug'].append(d2)
+            blk = nj['blocks'][bb]
+            tj = blk['term']
+            stmts = list(blk['stmts'])
+            for i, a in enumerate(tj['args']):
+                stmts.append({'k': 'assign', 'place': {'local': dl + 1 + i, 'proj': []}, 'rv': {'k': 'use', 'op': a}, 'span': tj['span']})
+            nj['blocks'][bb] = {'stmts': stmts, 'term': {'k': 'goto', 'target': db, 'span': tj['span']}, 'cleanup': blk['cleanup']}
+            for cblk in cb.j['blocks']:
+                st = [_shift(s, dl, db) for s in cblk['stmts']]
+                ct = cblk['term']
+                if ct['k'] == 'return':
+                    st.append({'k': 'assign', 'place': tj['dest'], 'rv': {'k': 'use', 'op': {'k': 'move', 'place': {'local': dl, 'proj': []}}}, 'span': ct['span']})
+                    nt = {'k': 'goto', 'target': tj['target'], 'span': ct['span']}
+                else:
+                    nt = _shift_term(ct, dl, db)
+                nj['blocks'].append({'stmts': st, 'term': nt, 'cleanup': cblk['cleanup']})
+            spliced.setdefault(bb, []).append((db, len(nj['blocks'])))
+        # renumber: the spliced blocks follow their call site, so that block order keeps tracking source order
+        order = []
+        for i in range(ncaller):
+            order.append(i)
+            for lo, hi in spliced.get(i, []):
+                order.extend(range(lo, hi))
+        remap = {o: n for n, o in enumerate(order)}
+        blocks = []
+        for o in order:
+            blk = nj['blocks'][o]
+            tj = dict(blk['term'])
+            if tj.get('target') is not None:
+                tj['target'] = remap[tj['target']]
+            if 'targets' in tj:
+                tj['targets'] = [[v, remap[b]] for v, b in tj['targets']]
+            if tj.get('otherwise') is not None:
+                tj['otherwise'] = remap[tj['otherwise']]
+            blocks.append({'stmts': blk['stmts'], 'term': tj, 'cleanup': blk['cleanup']})
+        nj['blocks'] = blocks
+        prev = getattr(cur, 'inlined', [])
+        cur = Body(nj)
+        cur.inlined = prev + [cb.name for _, _, cb in todo]
+    return cur
+
+
+def reaches_call(facts, body, pred, depth=3, _seen=None):
+    """does `body` (transitively through crate-local calls, bounded) contain a call whose Callee satisfies pred?"""
+    _seen = _seen or set()
+    if body.path in _seen:
+        return False
+    _seen.add(body.path)
+    for bb, t in body.calls():
+        if pred(t.callee):
+            return True
+    if depth > 0:
+        for bb, t in body.calls():
+            n = t.callee.name
+            if n and facts.by_name.get(n) and len(facts.by_name[n]) == 1:
+                if reaches_call(facts, facts.by_name[n][0], pred, depth - 1, _seen):
+                    return True
+    return False
+
+
+def fn_with_helpers(facts, name, anchor_pred, keep=()):
+    """facts.fn(name) with private helpers that wrap anchor calls inlined.  A helper is any crate-local, non-public-API
+    callee that is not itself an anchor (anchor_pred on its own name is false), is not in `keep`, and transitively
+    contains an anchor call."""
+    b = facts.fn(name)
+
+    class _C:                      # minimal Callee-like view of a body for anchor_pred
+        def __init__(self, body):
+            self.name = body.name
+            self.defname = body.name
+            self.full = body.path
+            self.resolved = body.path
+
+    def want(cb):
+        if cb.name in keep or anchor_pred(_C(cb)):
+            return False
+        return reaches_call(facts, cb, anchor_pred)
+    return inline_helpers(facts, b, want)
